@@ -269,6 +269,12 @@ def in_block(ctx, e, n, region, shape, k):
 # ----------------------------------------------------------------------------
 # sklearn: StandardScaler / LinearRegression / Ridge as used by verde.base.least_squares
 # ----------------------------------------------------------------------------
+def _h(parts):
+    import hashlib
+
+    return hashlib.sha1("|".join(parts).encode()).hexdigest()[:12]
+
+
 REGRESSION_LOG = []  # one record per regressor.fit: dict(X, y, w, alpha, coef, scaler)
 SCALER_LOG = []
 SCALE_CONTRACT = {"exact": True}
@@ -304,7 +310,8 @@ class StubStandardScaler:
                 s = T(hint[j])
                 eng.obligations.append(("ghost scale satisfies the StandardScaler contract (s > 0, s^2 = var or constant column)", z3.And(s > 0, z3.If(var == 0, s == 1, s * s == var))))
             else:
-                s = eng.new("scale")
+                # functional stub: the same column gives the same scale symbol (sklearn is deterministic)
+                s = z3.Real("scale!%s" % _h([z3.simplify(c).sexpr() for c in col]))
                 eng.add(s > 0)
                 if SCALE_CONTRACT["exact"]:
                     eng.add(z3.If(z3.simplify(var) == 0, s == 1, s * s == z3.simplify(var)))
@@ -344,8 +351,10 @@ class _StubRegr:
         coef = np.empty(m, dtype=object)
         ghost = LAST_SCALE["scale"]
         free = []
+        # functional stub: equal arguments give the same solution symbols (sklearn is deterministic)
+        key = _h([type(self).__name__, repr(self.alpha) if not isinstance(self.alpha, SymNum) else T(self.alpha).sexpr()] + [z3.simplify(T(v)).sexpr() for v in X.ravel()] + [z3.simplify(T(v)).sexpr() for v in y] + ([z3.simplify(T(v)).sexpr() for v in sample_weight] if sample_weight is not None else ["noweights"]))
         for j in range(m):
-            q = SymReal(eng.new("coef"))
+            q = SymReal(z3.Real("coef!%s!%d" % (key, j)))
             free.append(q)
             # reparametrise the unknown as q * scale_j (scale_j > 0, so no generality is lost): verde's
             # coef_ / scale_ then simplifies to q without a division
